@@ -1,9 +1,10 @@
 #!/bin/bash
-# Run every kept seeded change against the checks expected to catch it (quick tier) and record the outcome.
-# /repo is patched and always restored by tools/seedtest.sh; nothing else may use /repo meanwhile.
+# Run every kept seeded change against the checks expected to catch it (quick tier) and record the outcome in
+# seeded/RESULTS.tsv.  usage: tools/seedmatrix.sh [jobs]   (jobs > 1: concurrent runs on scratch worktrees under /tmp/seedwt,
+# removed afterwards; jobs = 1: apply to /repo itself and revert, one at a time)
 cd /verif
+jobs=${1:-4}
 OUT=/verif/seeded/RESULTS.tsv
-echo -e "change\tcheck\ttier\tresult" > $OUT
 python3 - <<'PY' > /tmp/seedmatrix.list
 import json, glob, os
 for mf in sorted(glob.glob('/verif/seeded/*/meta.json')):
@@ -13,9 +14,32 @@ for mf in sorted(glob.glob('/verif/seeded/*/meta.json')):
         for chk in c['caught_by']:
             print(os.path.join(d, c['patch']), chk)
 PY
-while read patch chk; do
-  res=$(tools/seedtest.sh $patch quick $chk 2>&1 | grep -v "^WARNING")
+rm -rf /tmp/seedmatrix.out; mkdir -p /tmp/seedmatrix.out
+one() {
+  slot=$1; patch=$2; chk=$3
+  if [ "$jobs" -gt 1 ]; then export SEED_TREE=/tmp/seedwt/$slot; fi
+  res=$(VERIF_WORKERS=${VERIF_WORKERS:-5} tools/seedtest.sh $patch quick $chk 2>&1 | grep -v "^WARNING")
   if echo "$res" | grep -q "^VIOLATION property=$chk"; then r=caught; else r=MISSED; fi
-  echo -e "${patch#/verif/seeded/}\t$chk\tquick\t$r" | tee -a $OUT
-done < /tmp/seedmatrix.list
+  echo -e "${patch#/verif/seeded/}\t$chk\tquick\t$r" > /tmp/seedmatrix.out/$(echo "${patch#/verif/seeded/}_$chk" | tr '/' '_')
+  echo -e "${patch#/verif/seeded/}\t$chk\t$r"
+}
+if [ "$jobs" -gt 1 ]; then
+  mkdir -p /tmp/seedwt
+  for s in $(seq 1 $jobs); do git -C /repo worktree add --detach -f /tmp/seedwt/$s HEAD >/dev/null 2>&1; done
+  n=0
+  while read patch chk; do
+    n=$((n+1)); slot=$(( (n-1) % jobs + 1 ))
+    echo "$slot $patch $chk"
+  done < /tmp/seedmatrix.list > /tmp/seedmatrix.slots
+  for s in $(seq 1 $jobs); do
+    ( grep "^$s " /tmp/seedmatrix.slots | while read slot patch chk; do one $slot $patch $chk; done ) &
+  done
+  wait
+  for s in $(seq 1 $jobs); do git -C /repo worktree remove --force /tmp/seedwt/$s; done
+  rmdir /tmp/seedwt 2>/dev/null
+else
+  while read patch chk; do one 0 $patch $chk; done < /tmp/seedmatrix.list
+fi
+echo -e "change\tcheck\ttier\tresult" > $OUT
+cat /tmp/seedmatrix.out/* | sort >> $OUT
 git -C /repo status --short
